@@ -318,6 +318,7 @@ func genMDCase(rt *rapid.T) mdCase {
 		if rapid.IntRange(0, 9).Draw(rt, "editVal") == 0 {
 			v = string(applyEdits([]byte(v), genEdits(rt, "val", 2, []byte("0123456789.,-+eEKMGTPi smhund")), []byte("0123456789.,-+eEKMGTPi smhund")))
 		}
+		v = mdDecorate(rt, v)
 		c.Keys = append(c.Keys, k)
 		c.Vals = append(c.Vals, v)
 	}
@@ -416,7 +417,7 @@ var mdJSONs = []string{`"1s"`, `"1h30m"`, `1000000000`, `1.5`, `1e9`, `1e30`, `-
 func TestMetadataScalars(t *testing.T) {
 	sec := vk.Sec(t.Name())
 	durs := []int64{0, 1, -1, 999999999, 1000000000, 59e9, 60e9, 3599e9, 3600e9, 86399e9, 86400e9, 86401e9, -86400e9, 1<<63 - 1, -1 << 63, -1<<63 + 1}
-	for _, s := range concat(mdJSONs, quoteAll(mdValues)) {
+	for _, s := range concat(mdJSONs, quoteAll(mdValues), quoteAll(mdDecorAll(concat(mdSizeVals, mdDurVals)))) {
 		for _, d := range durs[:2] {
 			settle(t, sec, runMDScalar(mdScalarCase{JSON: []byte(s), D: d}), vk.FP("scalar", s, d))
 		}
@@ -429,7 +430,7 @@ func TestMetadataScalars(t *testing.T) {
 		if rapid.Bool().Draw(rt, "listed") {
 			c.JSON = []byte(rapid.SampledFrom(mdJSONs).Draw(rt, "json"))
 		} else {
-			b, _ := json.Marshal(mdValues[pickUniform(rt, "val", len(mdValues))])
+			b, _ := json.Marshal(mdDecorate(rt, mdValues[pickUniform(rt, "val", len(mdValues))]))
 			c.JSON = b
 		}
 		if rapid.IntRange(0, 2).Draw(rt, "edit") == 0 {
@@ -437,6 +438,33 @@ func TestMetadataScalars(t *testing.T) {
 		}
 		settle(rt, sec, runMDScalar(c), vk.FP("scalar", c.JSON, c.D))
 	})
+}
+
+// white space around a value: decoders that validate a value themselves and then hand it to a library that trims
+// it see two different strings.
+var mdDecor = []string{" ", "\t", "\n", "  ", "\r\n", "\u00a0", "\x00"}
+
+func mdDecorate(rt *rapid.T, v string) string {
+	switch rapid.IntRange(0, 11).Draw(rt, "decor") {
+	case 0:
+		return v + rapid.SampledFrom(mdDecor).Draw(rt, "ws")
+	case 1:
+		return rapid.SampledFrom(mdDecor).Draw(rt, "ws") + v
+	case 2:
+		w := rapid.SampledFrom(mdDecor).Draw(rt, "ws")
+		return w + v + w
+	}
+	return v
+}
+
+func mdDecorAll(l []string) []string {
+	var out []string
+	for _, v := range l {
+		for _, w := range mdDecor {
+			out = append(out, v+w, w+v, w+v+w)
+		}
+	}
+	return out
 }
 
 func quoteAll(l []string) []string {
